@@ -63,6 +63,9 @@ def family(name, k, root):
         # the diamond pattern over a field that depends on no input, under a layer that takes static graph hashes of every field
         s3 = dict(src, cls='CSC', fields=dict(src['fields'], classes={'args': []}))
         return {'k': 'chain', 'flavour': 'chain', 'layers': [s3] + [crop(j, 'classes') for j in range(k)] + [{'k': 'groupby', 'by': 'key'}]}, 'ids', None
+    if name == 'diamond-disk-debuglog':
+        # as diamond-disk, measured with DEBUG logging switched on and a handler that formats every record
+        return family('diamond-disk', k, root)
     if name == 'chain':
         layers = [src] + [{'k': 'transform', 'cls': f'Ch', 'fields': {'image': {'args': ['image'], 'f': 'ch.image'}}, 'params': {},
                            'cargs': {}, 'defaults': {}, 'inherit': True} for j in range(k)]
@@ -75,13 +78,34 @@ def family(name, k, root):
     raise ValueError(name)
 
 
-FAMILIES = ['diamond', 'diamond-ram', 'diamond-disk', 'diamond-meta', 'diamond-filter', 'diamond-groupby', 'diamond-const-groupby', 'chain', 'fanin']
+FAMILIES = ['diamond', 'diamond-ram', 'diamond-disk', 'diamond-disk-debuglog', 'diamond-meta', 'diamond-filter', 'diamond-groupby', 'diamond-const-groupby', 'chain', 'fanin']
 
 
 def measure_family(name, sizes, call_cached=True):
     """-> {k: {'build': steps, 'compile': steps, 'call': steps, 'call2': steps}}"""
     os.makedirs(paths.SCRATCH, exist_ok=True)
     out = {}
+    handler = None
+    if name.endswith('-debuglog'):
+        import logging
+
+        class Formatting(logging.Handler):
+            def emit(self, record):
+                self.format(record)
+        handler = Formatting(level=logging.DEBUG)
+        lg = logging.getLogger('connectome')
+        old_level = lg.level
+        lg.addHandler(handler)
+        lg.setLevel(logging.DEBUG)
+    try:
+        return _measure_family(name, sizes, call_cached, out)
+    finally:
+        if handler is not None:
+            lg.removeHandler(handler)
+            lg.setLevel(old_level)
+
+
+def _measure_family(name, sizes, call_cached, out):
     for k in sizes:
         root = tempfile.mkdtemp(prefix='cv-cost-', dir=paths.SCRATCH)
         try:
